@@ -395,7 +395,12 @@ def r4_chunk_guards(chk, repo):
             if g.test is not None and g.polarity and isinstance(g.test, ast.Compare) and g.owner is enclosing(n.stmt, (ast.If,)):
                 tests.append(g.test)
     if len(tests) == 2:
-        symmap = {"data_starts_at": "ds", "data_ends_at": "de", "self.start": "s", "self.end": "e"}
+        from ..pattern import local_defined_as as _lda
+        DS, _1, _2 = _lda(init.node, "self.data[0]['time']")
+        DE, _1, _2 = _lda(init.node, "strax.endtime(self.data[-500:]).max()")
+        if DE is None:
+            DE = next((n.targets[0].id for n in walk_body(init.node) if isinstance(n, ast.Assign) and isinstance(n.targets[0], ast.Name) and "strax.endtime(self.data" in norm(n.value) and norm(n.value).endswith(".max()")), None)
+        symmap = {DS or "data_starts_at": "ds", DE or "data_ends_at": "de", "self.start": "s", "self.end": "e"}
         code = ast.BoolOp(op=ast.Or(), values=tests)
         spec = parse_pred("ds < s or de > e")
         try:
@@ -407,9 +412,10 @@ def r4_chunk_guards(chk, repo):
                   site_text=f"Chunk.__init__: rejection predicate equals specification on {n_ord} orderings", site={"function": init.qualname, "guard": "range-predicate"})
         chk.exhaustive = True
     # data_starts_at / data_ends_at definitions
-    d = Defs(init.node)
-    ds, de = d.single("data_starts_at"), d.single("data_ends_at")
-    chk.check(ds is not None and norm(ds) == "self.data[0]['time']", "C12.R4", init, None, "first row's start time is not what is compared with the chunk start", site_text="data_starts_at = self.data[0]['time']")
+    from ..pattern import local_defined_as as _lda2
+    ds = _lda2(init.node, "self.data[0]['time']")[0]
+    de = next((n.value for n in walk_body(init.node) if isinstance(n, ast.Assign) and isinstance(n.targets[0], ast.Name) and "strax.endtime(self.data" in norm(n.value) and norm(n.value).endswith(".max()")), None)
+    chk.check(ds is not None, "C12.R4", init, None, "first row's start time is not what is compared with the chunk start", site_text="data_starts_at = self.data[0]['time']")
     chk.check(de is not None and "strax.endtime(self.data" in norm(de) and norm(de).endswith(".max()"), "C12.R4", init, None, "the maximum end time of the inspected rows is not what is compared with the chunk end", site_text="data_ends_at = endtime(last rows).max()")
 
 
@@ -460,15 +466,24 @@ def r6_time_fields(chk, repo):
     fd = repo.func("Plugin.fix_dtype", PLUGIN)
     cfg = cfg_of(fd)
     d = Defs(fd.node)
-    okdef = [v for v, s, how in d.defs.get("ok", []) if v is not None]
-    rs = [n for n in cfg.stmt_nodes() if isinstance(n.stmt, ast.Raise) and ("ok", False) in cfg.guard_facts(n)]
+    from ..pattern import facts_matching as _fm, find as _pf
+    OK = None
+    rs = []
+    for n in cfg.stmt_nodes():
+        if isinstance(n.stmt, ast.Raise) and "Missing time" in norm(n.stmt):
+            for e, pol, g, b in _fm(cfg, n, "L_ok", False):
+                OK = b["L_ok"]
+                rs.append(n)
+    okdef = [v for v, s, how in d.defs.get(OK, []) if v is not None] if OK else []
+    fnames = {x.id for v in okdef for x in ast.walk(v) if isinstance(x, ast.Name)}
+    FN = next(iter(fnames)) if len(fnames) == 1 else "fieldnames"
     chk.check(len(okdef) == 1 and bool(rs), "C12.R6", fd, None, "fix_dtype no longer raises when the time-field test fails", site_text="fix_dtype: raise if not ok")
     if len(okdef) == 1:
         e = okdef[0]
         import itertools
         from ..dtable import eval_bool
         for t, dt, ln, et in itertools.product((False, True), repeat=4):
-            val = {"'time' in fieldnames": t, "'dt' in fieldnames": dt, "'length' in fieldnames": ln, "'endtime' in fieldnames": et}
+            val = {f"'time' in {FN}": t, f"'dt' in {FN}": dt, f"'length' in {FN}": ln, f"'endtime' in {FN}": et}
             try:
                 got = eval_bool(e, lambda text, node: val.get(text), {})
             except AnalysisError as ex:
@@ -480,7 +495,7 @@ def r6_time_fields(chk, repo):
     for n in rs:
         lp = enclosing(n.stmt, (ast.For,))
         chk.check(lp is not None and norm(lp.iter) == "self.provides", "C12.R6", fd, n.stmt, "time fields are not checked for every provided data type", site_text="fix_dtype: loop over self.provides")
-    fdef = d.single("fieldnames")
+    fdef = d.single(FN)
     chk.check(fdef is not None and "self.dtype_for(" in norm(fdef) and norm(fdef).endswith(".names"), "C12.R6", fd, None, "field names do not come from the declared dtype of the provided type", site_text="fix_dtype: fieldnames = self.dtype_for(d).names")
     # called on every path of plugin construction
     gp = repo.func("Context.__get_plugin", CONTEXT)
